@@ -33,6 +33,11 @@ cls(
                 ("C02.order.body-after-head", "implies(isinstance(e, Body), self.g_n_final == 1 and self.g_n_end == 0)", "C02,C12"),
                 ("C02.order.end-once", "implies(isinstance(e, EndBody), self.g_n_end == 0 and self.g_n_final == 1)", "C02,C05"),
                 ("C02.order.trailers", "implies(isinstance(e, Trailers), self.g_n_final == 1 and self.g_n_end == 0)", "C02"),
+                # C12 "CR, LF or NUL in application-supplied header names or values never reaches the
+                # wire on any protocol": every response head, informational response and trailer block
+                # a stream hands to the protocol is clean (a pushed request also carries the client's own
+                # scheme and authority; its application part goes through build_and_validate_headers)
+                ("C12.wire.no-ctl", "implies(isinstance(e, (Response, InformationalResponse, Trailers)), no_ctl_chars(e.headers))", "C12"),
             ],
             ghost=[
                 "self.g_n_final = self.g_n_final + (1 if isinstance(e, Response) else 0)",
